@@ -1691,7 +1691,7 @@ def explore(ctx, fn, pre=(), max_paths=64, budget_s=600.0, first_sample=None, on
             err = traceback.format_exc()
             tb = traceback.extract_tb(ex.__traceback__)
             inner = tb[-1].filename if tb else ""
-            if "/symx/" in inner or isinstance(ex, NotImplementedError):
+            if isinstance(ex, NotImplementedError) or ("/symx/" in inner and not isinstance(ex, (ValueError, ArithmeticError, RuntimeError))):
                 st = "shim-error"  # the model, not the code under test, failed: a harness error, never a verdict
         if ctx.pos < len(ctx.prefix) and st != "abort":
             if any(a.kind == "opaque" for a in atoms) or any(a.kind == "opaque" for a in ctx.atoms):
